@@ -25,9 +25,10 @@ Definition RM (f : int) : response := RMissing (zi f).
 Definition RI (f : int) : response := RInvalid (zi f).
 Definition CE (p t : int) (v : option value) : Z * Z * option value := (zi p, zi t, v).
 Definition O (r : response) (dump : option store) (c : cache) : observation := (r, dump, c).
-Definition SEQ (r : request) : ievent := ISeq r.
-Definition ST (id : int) (r : request) : ievent := IStart (zi id) r.
-Definition DR (id : int) : ievent := IDriver (zi id).
-Definition FI (id : int) : ievent := IFinish (zi id).
-Definition CASE (cfg : config) (st : store) (now : int) (steps : list (ievent * observation)) : case :=
+Definition SEQ (r : request) : hstep := HEv (ISeq r).
+Definition ST (id : int) (r : request) : hstep := HEv (IStart (zi id) r).
+Definition DR (id : int) : hstep := HEv (IDriver (zi id)).
+Definition FI (id : int) : hstep := HEv (IFinish (zi id)).
+Definition RT (p : int) (cfg : config) : hstep := HRetype (zi p) cfg.
+Definition CASE (cfg : config) (st : store) (now : int) (steps : list (hstep * observation)) : case :=
   (cfg, st, zi now, steps).
